@@ -73,6 +73,10 @@ class Check(PropertyCheck):
         for n in (2, 3, 4) if quick else (2, 3, 4, 6, 8):
             for rep in range(2):
                 jobs.append((["-1", "-n%d" % n], slowfast, None, "compress:slow-first-block"))
+        # a completely full level-9 block whose MTF stage does not shrink it: 900001 symbols = 18001 coding groups, the maximum
+        # (selector[] / selectorMTF[] of the encoder, selector[] of the decoder are used up to their last element)
+        full = enclib.maxgroups_plain()
+        jobs.append((["-9", "-n2"], full, None, "compress:18001-groups"))
         for i, (f, t) in enumerate(files):
             g = declib.GRANULES[i % len(declib.GRANULES)]
             jobs.append((["-d", "-n%d" % rng.choice([1, 2, 4, 8])], f, g, "decompress:" + t))
